@@ -182,7 +182,7 @@ def level_b_model_check(tier: str) -> dict:
     on the model's result (spec/ModifyMC.tla; known findings excused by the same
     signatures as in the trace checks)."""
     cfg, tmo = MODIFY_MC[tier]
-    res = tlc.model_check("ModifyMC.tla", cfg, timeout=tmo, workers=4)
+    res = tlc.model_check("ModifyMC.tla", cfg, timeout=tmo, workers=4 if tier == "quick" else 8)
     res["config"] = cfg
     return res
 
